@@ -14,6 +14,7 @@ func init() {
 }
 
 func runC19(c *Ctx) {
+	defer checkParamsUsed(c, "C19-R1", "internal/parser.NewParser")
 	p := c.P
 	c.Rule("C19-R1", "single rule constructor shared by both modes", 5)
 	c.Rule("C19-R2", "strict path delegates with zero displacement and the live line table", 9)
